@@ -163,6 +163,51 @@ end
     unmarked) -/
 def Forwards (g : Fn) : Prop := ∀ args r, g args = some r → ∀ l ∈ r.safeLeaves, l ∈ V.safeLeavesL args
 
+mutual
+/-- all string leaves of a value with their bits -/
+def V.strLeaves : V → List (TStr × Bool)
+  | .str s b => [(s, b)]
+  | .seq xs => V.strLeavesL xs
+  | .map kvs => V.strLeavesM kvs
+  | _ => []
+def V.strLeavesL : List V → List (TStr × Bool)
+  | [] => []
+  | x :: xs => x.strLeaves ++ V.strLeavesL xs
+def V.strLeavesM : List (String × V) → List (TStr × Bool)
+  | [] => []
+  | (_, v) :: kvs => v.strLeaves ++ V.strLeavesM kvs
+end
+
+mutual
+theorem safeLeaves_iff : ∀ (v : V) (l : TStr), l ∈ v.safeLeaves ↔ (l, true) ∈ v.strLeaves
+  | .str s true, l => by simp [V.safeLeaves, V.strLeaves]
+  | .str s false, l => by simp [V.safeLeaves, V.strLeaves]
+  | .int _, l => by simp [V.safeLeaves, V.strLeaves]
+  | .bool _, l => by simp [V.safeLeaves, V.strLeaves]
+  | .none, l => by simp [V.safeLeaves, V.strLeaves]
+  | .undef, l => by simp [V.safeLeaves, V.strLeaves]
+  | .seq xs, l => by simp only [V.safeLeaves, V.strLeaves]; exact safeLeavesL_iff xs l
+  | .map kvs, l => by simp only [V.safeLeaves, V.strLeaves]; exact safeLeavesM_iff kvs l
+theorem safeLeavesL_iff : ∀ (xs : List V) (l : TStr), l ∈ V.safeLeavesL xs ↔ (l, true) ∈ V.strLeavesL xs
+  | [], l => by simp [V.safeLeavesL, V.strLeavesL]
+  | x :: xs, l => by
+    simp only [V.safeLeavesL, V.strLeavesL, List.mem_append]
+    rw [safeLeaves_iff x l, safeLeavesL_iff xs l]
+theorem safeLeavesM_iff : ∀ (kvs : List (String × V)) (l : TStr), l ∈ V.safeLeavesM kvs ↔ (l, true) ∈ V.strLeavesM kvs
+  | [], l => by simp [V.safeLeavesM, V.strLeavesM]
+  | (k, v) :: kvs, l => by
+    simp only [V.safeLeavesM, V.strLeavesM, List.mem_append]
+    rw [safeLeaves_iff v l, safeLeavesM_iff kvs l]
+end
+
+/-- class `select`: every string leaf of the result — text **and** bit — is a string leaf of an
+    argument: the filter only selects, reorders or regroups what it was given -/
+def Selects (g : Fn) : Prop := ∀ args r, g args = some r → ∀ l ∈ r.strLeaves, l ∈ V.strLeavesL args
+
+theorem selects_forwards {g : Fn} (h : Selects g) : Forwards g := by
+  intro args r hr l hl
+  exact (safeLeavesL_iff args l).mpr (h args r hr (l, true) ((safeLeaves_iff r l).mp hl))
+
 /-- class `normal`: the result has no `Safe` leaf at all -/
 def NormalOut (g : Fn) : Prop := ∀ args r, g args = some r → r.safeLeaves = []
 
@@ -308,6 +353,284 @@ theorem itemsF_inv : InvPreserving itemsF := by
     rcases hy with rfl | rfl
     · exact inv_str_false _
     · exact hm kv hkv
+  · cases hr
+
+theorem strStripF_inv (side : Nat) : InvPreserving (strStripF side) := by
+  intro args r _ hr
+  unfold strStripF at hr
+  split at hr <;> first | (cases hr; exact inv_str_false _) | cases hr
+
+theorem strMapF_inv (g : TStr → TStr) : InvPreserving (strMapF g) := by
+  intro args r _ hr
+  unfold strMapF at hr
+  split at hr <;> first | (cases hr; exact inv_str_false _) | cases hr
+
+theorem strReplaceF_inv : InvPreserving strReplaceF := by
+  intro args r _ hr
+  unfold strReplaceF at hr
+  split at hr <;> first | (cases hr; exact inv_str_false _) | cases hr
+
+theorem strJoinF_inv : InvPreserving strJoinF := by
+  intro args r _ hr
+  unfold strJoinF at hr
+  split at hr
+  · simp only [Option.map_eq_some_iff] at hr
+    obtain ⟨items, _, rfl⟩ := hr
+    exact inv_str_false _
+  · cases hr
+
+theorem strSplitlinesF_inv : InvPreserving strSplitlinesF := by
+  intro args r _ hr
+  unfold strSplitlinesF at hr
+  split at hr
+  · cases hr
+    apply inv_seq.mpr
+    intro x hx
+    simp only [List.mem_map] at hx
+    obtain ⟨l, _, rfl⟩ := hx
+    exact inv_str_false _
+  · cases hr
+
+theorem dictValuesF_inv : InvPreserving dictValuesF := by
+  intro args r hargs hr
+  unfold dictValuesF at hr
+  split at hr
+  · rename_i kvs
+    cases hr
+    have hm := inv_map.mp (hargs (.map kvs) (by simp))
+    apply inv_seq.mpr
+    intro x hx
+    simp only [List.mem_map] at hx
+    obtain ⟨kv, hkv, rfl⟩ := hx
+    exact hm kv hkv
+  · cases hr
+
+theorem lookup_getD_inv {kvs : List (String × V)} {k : String} {d : V} (hm : ∀ kv ∈ kvs, kv.2.Inv) (hd : d.Inv) :
+    ((kvs.lookup k).getD d).Inv := by
+  cases hl : kvs.lookup k with
+  | none => exact hd
+  | some v =>
+    simp only [Option.getD_some]
+    rcases lookup_mem_pair hl with h | ⟨k', h⟩
+    · exact hm _ h
+    · exact hm _ h
+
+theorem dictGetF_inv : InvPreserving dictGetF := by
+  intro args r hargs hr
+  unfold dictGetF at hr
+  split at hr
+  · rename_i kvs k _
+    cases hr
+    exact lookup_getD_inv (inv_map.mp (hargs (.map kvs) (by simp))) inv_none
+  · rename_i kvs k _ d
+    cases hr
+    have hd : (optArg d).Inv := by
+      have := hargs d (by simp)
+      cases d <;> simp only [optArg] <;> first | exact this | exact inv_none
+    exact lookup_getD_inv (inv_map.mp (hargs (.map kvs) (by simp))) hd
+  · cases hr
+
+/-! ### filters that select / reorder input elements -/
+
+theorem mem_insertBy {cs : Bool} {x y : V} : ∀ {l : List V}, y ∈ insertBy cs x l → y = x ∨ y ∈ l := by
+  intro l
+  induction l with
+  | nil => intro h; simp only [insertBy, List.mem_singleton] at h; exact Or.inl h
+  | cons z zs ih =>
+    intro h
+    simp only [insertBy] at h
+    split at h
+    · rcases List.mem_cons.mp h with rfl | h
+      · exact Or.inr List.mem_cons_self
+      · rcases ih h with h | h
+        · exact Or.inl h
+        · exact Or.inr (List.mem_cons_of_mem _ h)
+    · rcases List.mem_cons.mp h with rfl | h
+      · exact Or.inl rfl
+      · exact Or.inr h
+
+theorem mem_sortVs {cs : Bool} {y : V} : ∀ {xs : List V}, y ∈ sortVs cs xs → y ∈ xs := by
+  intro xs
+  induction xs with
+  | nil => intro h; simp [sortVs] at h
+  | cons x xs ih =>
+    intro h
+    simp only [sortVs, List.foldr_cons] at h
+    rcases mem_insertBy h with rfl | h
+    · exact List.mem_cons_self
+    · exact List.mem_cons_of_mem _ (ih h)
+
+theorem sortF_inv (cs rev : Bool) : InvPreserving (sortF cs rev) := by
+  intro args r hargs hr
+  unfold sortF at hr
+  split at hr
+  · rename_i xs
+    split at hr
+    · cases hr
+      have := inv_seq.mp (hargs (.seq xs) (by simp))
+      apply inv_seq.mpr
+      intro y hy
+      split at hy
+      · exact this y (List.mem_reverse.mp (mem_sortVs (List.mem_reverse.mp hy)))
+      · exact this y (mem_sortVs hy)
+    · cases hr
+  · cases hr
+
+theorem minVs_mem : ∀ {xs : List V} {m : V}, minVs xs = some m → m ∈ xs := by
+  intro xs
+  induction xs with
+  | nil => intro m h; simp [minVs] at h
+  | cons x xs ih =>
+    intro m h
+    simp only [minVs] at h
+    split at h
+    · cases h; exact List.mem_cons_self
+    · rename_i m0 hm0
+      split at h
+      · cases h; exact List.mem_cons_of_mem _ (ih hm0)
+      · cases h; exact List.mem_cons_self
+
+theorem maxVs_mem : ∀ {xs : List V} {m : V}, maxVs xs = some m → m ∈ xs := by
+  intro xs
+  induction xs with
+  | nil => intro m h; simp [maxVs] at h
+  | cons x xs ih =>
+    intro m h
+    simp only [maxVs] at h
+    split at h
+    · cases h; exact List.mem_cons_self
+    · rename_i m0 hm0
+      split at h
+      · cases h; exact List.mem_cons_self
+      · cases h; exact List.mem_cons_of_mem _ (ih hm0)
+
+theorem minF_inv : InvPreserving minF := by
+  intro args r hargs hr
+  unfold minF at hr
+  split at hr
+  · rename_i xs
+    split at hr
+    · cases hr
+      have := inv_seq.mp (hargs (.seq xs) (by simp))
+      cases hm : minVs xs with
+      | none => exact inv_undef
+      | some m => exact this m (minVs_mem hm)
+    · cases hr
+  · cases hr
+
+theorem maxF_inv : InvPreserving maxF := by
+  intro args r hargs hr
+  unfold maxF at hr
+  split at hr
+  · rename_i xs
+    split at hr
+    · cases hr
+      have := inv_seq.mp (hargs (.seq xs) (by simp))
+      cases hm : maxVs xs with
+      | none => exact inv_undef
+      | some m => exact this m (maxVs_mem hm)
+    · cases hr
+  · cases hr
+
+theorem selectF_inv (inv : Bool) : InvPreserving (selectF inv) := by
+  intro args r hargs hr
+  unfold selectF at hr
+  split at hr
+  · rename_i xs
+    cases hr
+    have := inv_seq.mp (hargs (.seq xs) (by simp))
+    exact inv_seq.mpr fun y hy => this y (List.mem_filter.mp hy).1
+  · cases hr
+
+theorem mem_chunks {n : Nat} {y : V} : ∀ (fuel : Nat) (xs c : List V), c ∈ chunks fuel n xs → y ∈ c → y ∈ xs := by
+  intro fuel
+  induction fuel with
+  | zero => intro xs c h; simp [chunks] at h
+  | succ fuel ih =>
+    intro xs c h hy
+    simp only [chunks] at h
+    split at h
+    · cases h
+    · rcases List.mem_cons.mp h with rfl | h
+      · exact List.mem_of_mem_take hy
+      · exact List.mem_of_mem_drop (ih _ c h hy)
+
+theorem batchF_inv (n : Nat) : InvPreserving (batchF n) := by
+  have go : ∀ (xs : List V) (fill : Option V) (r : V), (∀ x ∈ xs, x.Inv) → (∀ f, fill = some f → f.Inv) →
+      (if n = 0 then Option.none else
+        let cs := chunks xs.length n xs
+        let cs := match fill, cs.reverse with
+          | some f, last :: rest => (((last ++ List.replicate (n - last.length) f) :: rest).reverse)
+          | _, _ => cs
+        some (V.seq (cs.map V.seq))) = some r → r.Inv := by
+    intro xs fill r hx hf hr
+    split at hr
+    · cases hr
+    · simp only [Option.some.injEq] at hr
+      subst hr
+      apply inv_seq.mpr
+      intro c hc
+      simp only [List.mem_map] at hc
+      obtain ⟨c0, hc0, rfl⟩ := hc
+      apply inv_seq.mpr
+      intro y hy
+      split at hc0
+      · rename_i f last rest hrev
+        have hsub : ∀ q, q ∈ last :: rest → q ∈ chunks xs.length n xs := by
+          intro q hq
+          have : q ∈ (chunks xs.length n xs).reverse := by rw [hrev]; exact hq
+          exact List.mem_reverse.mp this
+        rcases List.mem_cons.mp (List.mem_reverse.mp hc0) with rfl | hc0
+        · rcases List.mem_append.mp hy with hy | hy
+          · exact hx y (mem_chunks _ _ _ (hsub _ List.mem_cons_self) hy)
+          · rw [List.mem_replicate] at hy; rw [hy.2]; exact hf f rfl
+        · exact hx y (mem_chunks _ _ _ (hsub _ (List.mem_cons_of_mem _ hc0)) hy)
+      · exact hx y (mem_chunks _ _ _ hc0 hy)
+  intro args r hargs hr
+  unfold batchF at hr
+  simp only at hr
+  split at hr
+  · rename_i xs
+    exact go xs Option.none r (inv_seq.mp (hargs (.seq xs) (by simp))) (by intro f h; cases h) hr
+  · rename_i xs
+    exact go xs Option.none r (inv_seq.mp (hargs (.seq xs) (by simp))) (by intro f h; cases h) hr
+  · rename_i xs
+    exact go xs Option.none r (inv_seq.mp (hargs (.seq xs) (by simp))) (by intro f h; cases h) hr
+  · rename_i xs f _ _
+    exact go xs (some f) r (inv_seq.mp (hargs (.seq xs) (by simp))) (by intro f' h; cases h; exact hargs f (by simp)) hr
+  · cases hr
+
+theorem mem_uniqGo {y : V} : ∀ (xs : List V) (seen : List (List Nat)), y ∈ uniqGo seen xs → y ∈ xs := by
+  intro xs
+  induction xs with
+  | nil => intro seen h; simp [uniqGo] at h
+  | cons x xs ih =>
+    intro seen h
+    simp only [uniqGo] at h
+    split at h
+    · exact List.mem_cons_of_mem _ (ih _ h)
+    · rcases List.mem_cons.mp h with rfl | h
+      · exact List.mem_cons_self
+      · exact List.mem_cons_of_mem _ (ih _ h)
+
+theorem uniqueF_inv : InvPreserving uniqueF := by
+  intro args r hargs hr
+  unfold uniqueF at hr
+  split at hr
+  · rename_i xs
+    split at hr
+    · cases hr
+      have := inv_seq.mp (hargs (.seq xs) (by simp))
+      exact inv_seq.mpr fun y hy => this y (mem_uniqGo _ _ hy)
+    · cases hr
+  · cases hr
+
+theorem attrArgF_inv : InvPreserving attrArgF := by
+  intro args r hargs hr
+  unfold attrArgF at hr
+  split at hr
+  · rename_i v k _
+    exact attrF_inv _ [v] r (by intro a ha; simp at ha; subst ha; exact hargs _ (by simp)) hr
   · cases hr
 
 theorem escapeF_inv : InvPreserving (escapeF .html) := by
@@ -1041,6 +1364,21 @@ theorem named_models_preserve_inv (name : String) (ps : List Nat) (g : Fn)
     | (cases h; exact defaultF_inv _)
     | (cases h; exact stringF_inv)
     | (cases h; exact lengthF_inv)
+    | (cases h; exact itemsF_inv)
+    | (cases h; exact sortF_inv _ _)
+    | (cases h; exact minF_inv)
+    | (cases h; exact maxF_inv)
+    | (cases h; exact selectF_inv _)
+    | (cases h; exact batchF_inv _)
+    | (cases h; exact uniqueF_inv)
+    | (cases h; exact attrArgF_inv)
+    | (cases h; exact strMapF_inv _)
+    | (cases h; exact strStripF_inv _)
+    | (cases h; exact strReplaceF_inv)
+    | (cases h; exact strJoinF_inv)
+    | (cases h; exact strSplitlinesF_inv)
+    | (cases h; exact dictValuesF_inv)
+    | (cases h; exact dictGetF_inv)
     | (cases h)
 
 /-- … and so does `map` with any such filter -/
